@@ -156,7 +156,10 @@ def witness(text):
 # other uses of the operand object between two evaluations of the same quantifier form
 DISTURB = ["Group(_o, True)", "_o.group(True)", "_o.capture('w')", "Capture(_o)", "_o + 'x'", "'x' + _o", "Either(_o, 'x')", "_o.optional(False)",
            "_o.get_matches('ab ba')", "_o.has_match('')", "_o.get_pattern()", "Indefinite(_o, False)", "_o * 3", "_o.at_least_at_most(2, 3, False)",
-           "FollowedBy('x', _o)", "_o.match_at_start()"]
+           "FollowedBy('x', _o)", "_o.match_at_start()",
+           # calls that raise: nothing may be left half-updated
+           "_o.exactly(-1)", "_o.at_least_at_most(3, 1)", "_o.at_most(True)", "_o * 1.5", "_o.capture('1bad')", "_o + 5", "_o.replace('a', 'b', -1)",
+           "_o.get_matches('/nonexistent/dir/f.txt', is_path=True)", "NotFollowedBy(_o, Pregex())", "PrecededBy('x', OneOrMore(_o))"]
 
 
 def _task(descs):
